@@ -41,6 +41,7 @@ def case_of(ops, slots=(1, 2), addrs=(0, 1)):
 
 PROBE_GATE = case_of(SETUP2 + [msg(1, A), msg(1, A, key=-2), msg(2, A, tun=1), msg(2, A, key=-2, tun=1), msg(2, B)])
 PROBE_ANON = case_of([[REGISTER], [OPEN, 1, 0], [DELANON, 1], msg(1, 1)], slots=(1,), addrs=(0,))
+PROBE_KEEP = case_of([[REGISTER], [OPEN, 1, 0], msg(1, UNKNOWN), msg(1, 0, new=1)], slots=(1,), addrs=(0,))
 
 
 def exhaustive_cases(depth_full, depth_ctl):
@@ -180,7 +181,7 @@ def enc_ev(op, st):
 def case_value(case, out, variant):
     steps = out["steps"]
     obs = [[s["o"][0], s["o"][1], s["o"][2], [list(c) for c in s["c"]], s["i"], s["b"], s["k"], s["f"], s["n"]] for s in steps]
-    return [[variant[0], variant[1]], case["slots"], case["addrs"], [enc_ev(op, st) for op, st in zip(case["ops"], steps)], obs]
+    return [list(variant), case["slots"], case["addrs"], [enc_ev(op, st) for op, st in zip(case["ops"], steps)], obs]
 
 
 def shrink(binary, case, key):
@@ -217,10 +218,12 @@ def load_corpus():
 
 
 def detect_variant(binary):
-    og, oa = vlib.run_harness(binary, [PROBE_GATE, PROBE_ANON])
+    og, oa, ok = vlib.run_harness(binary, [PROBE_GATE, PROBE_ANON, PROBE_KEEP])
     gate = 0 if og["steps"][-1]["i"][0] == 2 else 1      # did the non-success phase 1 install connection 2 for client A?
     anon = 0 if oa["steps"][-1]["o"][1] == 3 else 1      # is a challenge still issued for the deleted client?
-    return [gate, anon]
+    # does a first connection leave the address's failure record alone (fixes/C18-anon-registration-keeps-failures.diff)?
+    keep = 1 if ok["steps"][-1]["f"][0] == 1 else 0
+    return [gate, anon, keep]
 
 
 def run(ctx, only_cases=None):
@@ -321,7 +324,7 @@ def run(ctx, only_cases=None):
                 "scenarios. distinct = distinct event lists; non-trivial = at least one challenge issued or one Success response by the real server.",
         "samples": [{"case": cases[i], "observed": outs[i]["steps"][-1]} for i in (0, len(cases) // 2, len(cases) - 1) if i < len(cases)],
         "model_vs_impl_cases": len(terms), "model_vs_impl_mismatches": len(mism),
-        "impl_property_failures": nfail, "tree_variant": {"success_gate": variant[0], "anon_delete": variant[1]},
+        "impl_property_failures": nfail, "tree_variant": {"success_gate": variant[0], "anon_delete": variant[1], "first_connection_keeps_failures": variant[2]},
         "input_distribution": {"enumerated_or_sampled_alphabet_histories": n_ex, "events_by_kind": {names[k]: v for k, v in sorted(kinds.items())},
                                "success_responses": succ, "challenges_issued": chal, "distinct_histories": len(distinct)},
         "generated_file_changed": gen_changed,
